@@ -730,23 +730,22 @@ static void on_panic(const char *fmt, va_list args)
 	_exit(97);
 }
 
-#ifdef __SANITIZE_ADDRESS__
-#include <sanitizer/common_interface_defs.h>
-static void on_death(void)
+/* sanitizer reports end in abort() (ASAN/UBSAN_OPTIONS abort_on_error=1): name the case that was running */
+#include <signal.h>
+static void on_abort(int sig)
 {
+	(void)sig;
 	fprintf(res, "CRASH | %s\n", trace_fn ? trace_fn() : "-");
 	fflush(res);
+	_exit(96);
 }
-#endif
 
 int main(int argc, char **argv)
 {
 	int fd = dup(1);
 	res = fdopen(fd, "w");
 	if (!freopen("/dev/null", "w", stdout)) return 3;
-#ifdef __SANITIZE_ADDRESS__
-	__sanitizer_set_death_callback(on_death);
-#endif
+	signal(SIGABRT, on_abort);
 	osmo_set_panic_handler(on_panic);
 	if (argc < 2) return 2;
 	if (!strcmp(argv[1], "bfs")) return do_bfs(argc, argv);
